@@ -382,6 +382,11 @@ pub fn replay(lines: &[String], out: &mut Out) {
                 with_width!(w, irrun_case, w, &code, &env, budget, out);
             }
             "bcrun" => out.case(line, &exec_bcrun(&t)),
+            "divchk" => {
+                out.mark(line);
+                let r = exec_divchk(&t);
+                out.case(line, &r)
+            }
             "cell" => out.case(line, &crate::dsuites::exec_cell(&t)),
             "mem" => out.case(line, &crate::dsuites::exec_mem(&t)),
             "sv" => out.case(line, &crate::dsuites::exec_sv(&t)),
@@ -624,5 +629,167 @@ pub fn bcgen(r: &mut Rng, count: usize, out: &mut Out) {
         let code = random_program(r, out);
         let w = *r.pick(&WIDTHS);
         with_width!(w, bcgen_case, w, &code, out);
+    }
+}
+
+// ------------------------------------------------------------------------------------------ bcwf
+
+fn bcwf_case<C: CellType>(w: u32, code: &str, out: &mut Out) {
+    for &lvl in &[0u32, 1, 2, 3] {
+        let ir = match ir::Program::<C>::parse(code) {
+            Ok(p) => p.optimize(lvl),
+            Err(_) => return,
+        };
+        for &(nregs, fuse) in &[(2usize, true), (11usize, false)] {
+            let bc = hpbf::bc::CodeGen::translate(&ir, nregs, fuse);
+            out.case(
+                &format!("bcwf {w} {nregs} {lvl} {} {}", hex(code.as_bytes()), encode_bc(&bc)),
+                "ok",
+            );
+            if bc.temps > nregs {
+                out.stat("with_stack_temps");
+            }
+            out.stat(&format!("regs{nregs}"));
+        }
+    }
+}
+
+/// The bytecode handed to the unsafe back ends must pass the (verified) contract checker.
+pub fn bcwf(r: &mut Rng, count: usize, out: &mut Out) {
+    for _ in 0..count {
+        let code = random_program(r, out);
+        let w = *r.pick(&WIDTHS);
+        with_width!(w, bcwf_case, w, &code, out);
+    }
+}
+
+// ---------------------------------------------------------------------------------------- divgen
+
+/// Phase 1 of the divergence check: candidate programs, to be certified by the Lean model.
+pub fn divgen(r: &mut Rng, count: usize, out: &mut Out) {
+    for _ in 0..count {
+        let code = gen::maybe_divergent(r);
+        let mut env = random_env(r);
+        if env.input.is_none() {
+            env.input = Some(vec![]);
+        }
+        let w = *r.pick(&WIDTHS);
+        out.case(&format!("bfcert {w} 60000 {} {}", env.encode(), hex(code.as_bytes())), "-");
+    }
+}
+
+fn trace_prefix(a: &str, b: &str) -> bool {
+    // is event list `a` a prefix of `b` (both in the comma-joined encoding, "-" = empty)
+    if a == "-" {
+        return true;
+    }
+    if b == "-" {
+        return false;
+    }
+    let av: Vec<&str> = a.split(',').collect();
+    let bv: Vec<&str> = b.split(',').collect();
+    av.len() <= bv.len() && av[..] == bv[..av.len()]
+}
+
+/// `divchk <w> <in> <out> <hex> <halts|diverges> <trace-at-verdict> <long-prefix> <budget>`:
+/// every back end at every level must finish with exactly the canonical events (halts), or never
+/// report finished and emit only canonical prefixes that reach the certified prefix (diverges).
+fn divchk_exec<C: CellType>(t: &[&str]) -> String {
+    let env = match EnvSpec::decode(t[2], t[3]) { Some(e) => e, None => return "bad-request".into() };
+    let code = match crate::util::unhex(t[4]).and_then(|b| String::from_utf8(b).ok()) { Some(c) => c, None => return "bad-request".into() };
+    let halts = t[5] == "halts";
+    let at_verdict = t[6];
+    let long = t[7];
+    let budget: usize = t[8].parse().unwrap_or(100000);
+    let mut fails: Vec<String> = Vec::new();
+    for &lvl in &LEVELS {
+        macro_rules! backend {
+            ($name:expr, $ty:ident) => {{
+                match $ty::<C>::create(&code, lvl) {
+                    Ok(exec) => {
+                        if halts {
+                            let r = run_exec::<C>(&exec, &env, &Mode::Limited(1usize << 40));
+                            let tag = if $name == "basejit" && r.tag == "interrupted" { "ok".to_string() } else { r.tag.clone() };
+                            if tag != "ok" || r.trace != at_verdict {
+                                fails.push(format!("{}/O{lvl}:halting-program-gives-{}:{}", $name, r.tag, r.trace));
+                            }
+                            let u = run_exec::<C>(&exec, &env, &Mode::Unlimited);
+                            if u.tag != "ok" || u.trace != at_verdict {
+                                fails.push(format!("{}/O{lvl}/unlimited:halting-program-gives-{}:{}", $name, u.tag, u.trace));
+                            }
+                        } else {
+                            for b in [1usize, 50, budget] {
+                                let r = run_exec::<C>(&exec, &env, &Mode::Limited(b));
+                                if r.tag != "interrupted" {
+                                    fails.push(format!("{}/O{lvl}/b{b}:divergent-program-reports-{}", $name, r.tag));
+                                }
+                                if !(trace_prefix(&r.trace, long) || trace_prefix(long, &r.trace)) {
+                                    fails.push(format!("{}/O{lvl}/b{b}:events-not-canonical-prefix:{}", $name, r.trace));
+                                }
+                                if b == budget && !trace_prefix(at_verdict, &r.trace) {
+                                    fails.push(format!("{}/O{lvl}/b{b}:output-before-divergence-lost:{}", $name, r.trace));
+                                }
+                            }
+                        }
+                    }
+                    Err(_) => fails.push(format!("{}/O{lvl}:create-error", $name)),
+                }
+            }};
+        }
+        backend!("inplace", InplaceInterpreter);
+        backend!("irint", IrInterpreter);
+        backend!("bcint", BcInterpreter);
+        backend!("basejit", BaseJitCompiler);
+    }
+    if fails.is_empty() {
+        "ok".to_string()
+    } else {
+        let shown: Vec<String> = fails.iter().take(4).map(|s| s.chars().take(160).collect()).collect();
+        format!("FAIL {} {}", fails.len(), shown.join(" "))
+    }
+}
+
+pub fn exec_divchk(t: &[&str]) -> String {
+    if t.len() != 9 {
+        return "bad-request".to_string();
+    }
+    match t[1] {
+        "8" => divchk_exec::<u8>(t),
+        "16" => divchk_exec::<u16>(t),
+        "32" => divchk_exec::<u32>(t),
+        "64" => divchk_exec::<u64>(t),
+        _ => "bad-request".to_string(),
+    }
+}
+
+// ------------------------------------------------------------------------------------------ roam
+
+/// e2e comparison restricted to programs that roam far in both directions (for the guard-page runs).
+pub fn roam(r: &mut Rng, count: usize, out: &mut Out) {
+    for i in 0..count {
+        let mut code = gen::roaming(r);
+        if i % 3 == 0 {
+            // far walks: thousands of cells to the left or right, then come back part of the way
+            let n = 1000 + r.below(9000) as usize;
+            let back = r.below(n as u64) as usize;
+            let (a, b) = if r.chance(1, 2) { ('<', '>') } else { ('>', '<') };
+            let mut s = String::from("+");
+            for _ in 0..n {
+                s.push(a);
+            }
+            s.push_str("++.");
+            for _ in 0..back {
+                s.push(b);
+            }
+            s.push_str("+.[-]");
+            code = s + &code;
+        }
+        out.stat("gen_roaming");
+        let mut env = random_env(r);
+        if env.input.is_none() {
+            env.input = Some(vec![]);
+        }
+        let w = *r.pick(&WIDTHS);
+        with_width!(w, e2e_case, w, &code, &env, out);
     }
 }
